@@ -14,6 +14,15 @@ func main() {
 	out := flag.String("out", "", "output .tl file")
 	universe := flag.String("universe", "", "\"\" = uni.Universe(level); \"reg\" = uni.UniverseReg(level) (registry/function universe; level 0 = alone, >= 1 merged with Universe(level)); \"regtl2\" = uni.RegTL2Universe() (TL2 source text)")
 	flag.Parse()
+	if *universe == "c08x" {
+		sx := uni.UniverseC08X()
+		if err := os.WriteFile(*out, []byte(sx.Text()), 0o644); err != nil {
+			fmt.Fprintln(os.Stderr, err)
+			os.Exit(2)
+		}
+		fmt.Printf("C08 extra universe: %d declarations, %d top-level items\n", len(sx.Structs), len(sx.Tops))
+		return
+	}
 	if *universe == "regtl2" {
 		text, items := uni.RegTL2Universe()
 		if err := os.WriteFile(*out, []byte(text), 0o644); err != nil {
